@@ -745,6 +745,20 @@ fn main() {
         }
         search_case(&mut out, &c, "small");
     }
+    // targets at extreme scales (the objective is homogeneous of degree 2 in y when alpha scales along)
+    for i in 0..(if a.thorough { 600 } else { 60 }) {
+        let enet = i % 2 == 1;
+        let mut c = gen_case(&mut rng, 40, 6, enet, false);
+        let f = 10f64.powf(rng.uniform(-8.0, 8.0));
+        for yi in c.y.iter_mut() {
+            *yi *= f;
+        }
+        c.shift *= f;
+        if rng.bool() {
+            c.alpha = (c.alpha * f).max(1e-3); // same regime as before the scaling
+        }
+        search_case(&mut out, &c, "y-scale");
+    }
     // constant targets (known finding `constant-target`): Err("tolerance shoud be > 0") for a generic alpha,
     // a hang when n*alpha is a power of two below 1 (one such probe per run: the stuck thread is leaked)
     for i in 0..(if a.thorough { 12 } else { 4 }) {
